@@ -12,6 +12,11 @@ import (
 	"go.starlark.net/starlarkstruct"
 )
 
+// maxStarlarkExecutionSteps bounds the evaluation of one BUILD.star / loaded module so that a
+// runaway loop is reported as an error instead of hanging every grog command in the workspace.
+// Build files describe targets; real ones stay many orders of magnitude below this.
+const maxStarlarkExecutionSteps = 100_000_000
+
 // StarlarkLoader implements the Loader interface for Starlark files.
 type StarlarkLoader struct{}
 
@@ -70,6 +75,8 @@ func (sl StarlarkLoader) Load(ctx context.Context, filePath string) (PackageDTO,
 			return sl.loadModule(thread, module, filePath, collector, loadContext)
 		},
 	}
+
+	thread.SetMaxExecutionSteps(maxStarlarkExecutionSteps)
 
 	// Execute the Starlark file
 	_, err := starlark.ExecFile(thread, filePath, nil, predeclared)
@@ -150,6 +157,8 @@ func (sl StarlarkLoader) loadModule(thread *starlark.Thread, module string, curr
 			return sl.loadModule(threadInner, moduleInner, modulePath, collector, loadContext)
 		},
 	}
+
+	moduleThread.SetMaxExecutionSteps(maxStarlarkExecutionSteps)
 
 	// Execute the module
 	globals, err := starlark.ExecFile(moduleThread, modulePath, nil, predeclared)
